@@ -688,6 +688,13 @@ class StateNode(Generic[TContext, TEvent]):
             self.history = history_kind
         #: Default target used when a history state has nothing recorded yet.
         self.target_str: Optional[str] = config.get("target")
+        if self.target_str is not None and not isinstance(
+            self.target_str, str
+        ):
+            raise InvalidConfigError(
+                f"State '{self.id}' has a default 'target' of type "
+                f"'{type(self.target_str).__name__}'. Expected a string."
+            )
 
         self.entry = self._parse_actions(config.get("entry"))
         self.exit = self._parse_actions(config.get("exit"))
